@@ -36,6 +36,7 @@ def run_m1(tier, seed, chk=None):
     if rc2 != 0:
         return {"coq_error": out2[-3000:]}
     key = tree_hash(["/repo/crates/vespertide-core", "/repo/crates/vespertide-planner", "/repo/crates/vespertide-naming",
+                     "/repo/crates/vespertide-loader", "/repo/crates/vespertide-config",
                      os.path.join(ROOT, "harness", "common"), os.path.join(ROOT, "harness", "m1"),
                      os.path.join(ROOT, "coq", "m1", "Base"), os.path.join(ROOT, "coq", "m1", "Model"),
                      os.path.join(ROOT, "coq", "m1", "Corr"), os.path.join(ROOT, "corpus", "m1")])
@@ -69,7 +70,14 @@ def run_m1(tier, seed, chk=None):
         blocks = vflib.parse_eval_outputs(o)
         for (i, subs) in vflib.parse_nat_pairs(blocks[0] if blocks else ""):
             mism[str(idx_map[i])] = subs
-    out = {"mismatches": mism, "errors": errors, "meta": meta, "dir": d, "gen_s": round(time.time() - t0, 1), "cached": False}
+    load_bad = None
+    for f, rc, o, dt in vflib.run_shards("m1", d, "cases_load_*.v"):
+        blocks = vflib.parse_eval_outputs(o)
+        if rc != 0 or not blocks:
+            errors.append({"shard": os.path.basename(f), "log": o[-1500:]})
+        else:
+            load_bad = (load_bad or 0) + int(blocks[0].replace("%nat", "").strip() or 0)
+    out = {"mismatches": mism, "errors": errors, "meta": meta, "dir": d, "gen_s": round(time.time() - t0, 1), "cached": False, "load_bad": load_bad}
     json.dump(out, open(done, "w"))
     out["rows"] = [json.loads(l) for l in open(os.path.join(d, "cases.jsonl"))]
     return out
